@@ -116,9 +116,9 @@ TRANSL = {
  "C04": "basic.Canonicalize, CanonicalizeTrustVector and CanonicalizeLocalTrust",
  "C05": "basic.Compute itself (schedule resolution: checkFreq default 1, minIterations default checkFreq, maxIterations 0 = unlimited; the loop), the convergence checker (Props/TrChk) and the nine option constructors of computeopts.go (each sets only its own field)",
  "C08": "basic.ExtractDistrust and DiscountTrustVector",
- "C09": "KBNSummer.Add/Sum, Vector.Sum/AddVec/SubVec/scaleInPlace/ScaleVec/Assign/Clone/Reset/SetDim and VecDot",
+ "C09": "KBNSummer.Add/Sum, Vector.Sum/AddVec/SubVec/scaleInPlace/ScaleVec/Assign/Clone/Reset/SetDim and VecDot (incl. algebraic laws over call sequences, Props/TrGo09c)",
  "C10": "CSMatrix.Dim/NNZ/SetMinorDim/Transpose, NewCSRMatrix, RowVector/SetRowVector",
- "C11": "mergeSpan and Vector.Merge (incl. the overlay property stated on the translated code)",
+ "C11": "mergeSpan and Vector.Merge (incl. the overlay property and every update history of Vector.Merge stated on the translated code, Props/TrGo11)",
  "C15": "the playground's iterationBound (the iteration bound of the repair e85c9dc; proved equal to the model's pgIterBound, between 2 and 65536 for all inputs)",
  "C20": "the playground's iterationBound (the iteration bound of the repair e85c9dc; proved equal to the model's pgIterBound)",
  "C18": "NewFlatTailChecker, FlatTailChecker.Update/Reached/Stats and basic.Compute itself (the stop rule)",
